@@ -1246,6 +1246,14 @@ func (t *typeParser) parse() typeParserResult {
 	// interpret the AST
 	if strings.HasPrefix(ast.name, COMPOSITE_TYPE) {
 		count := len(ast.params)
+		if count == 0 {
+			// a composite type without components: treat it as a custom type
+			return typeParserResult{
+				isComposite: false,
+				types:       []TypeInfo{NativeType{typ: TypeCustom, custom: t.input}},
+				reversed:    []bool{false},
+			}
+		}
 
 		// look for a collections param
 		last := ast.params[count-1]
@@ -1254,6 +1262,10 @@ func (t *typeParser) parse() typeParserResult {
 			count--
 
 			for _, param := range last.class.params {
+				if param.name == nil {
+					// collection parameters are named; ignore one that is not
+					continue
+				}
 				// decode the name
 				var name string
 				decoded, err := hex.DecodeString(*param.name)
@@ -1278,7 +1290,7 @@ func (t *typeParser) parse() typeParserResult {
 
 		for i, param := range ast.params[:count] {
 			class := param.class
-			reversed[i] = strings.HasPrefix(class.name, REVERSED_TYPE)
+			reversed[i] = strings.HasPrefix(class.name, REVERSED_TYPE) && len(class.params) > 0
 			if reversed[i] {
 				class = class.params[0].class
 			}
@@ -1294,7 +1306,7 @@ func (t *typeParser) parse() typeParserResult {
 	} else {
 		// not composite, so one type
 		class := *ast
-		reversed := strings.HasPrefix(class.name, REVERSED_TYPE)
+		reversed := strings.HasPrefix(class.name, REVERSED_TYPE) && len(class.params) > 0
 		if reversed {
 			class = class.params[0].class
 		}
@@ -1309,7 +1321,7 @@ func (t *typeParser) parse() typeParserResult {
 }
 
 func (class *typeParserClassNode) asTypeInfo() TypeInfo {
-	if strings.HasPrefix(class.name, LIST_TYPE) {
+	if strings.HasPrefix(class.name, LIST_TYPE) && len(class.params) >= 1 {
 		elem := class.params[0].class.asTypeInfo()
 		return CollectionType{
 			NativeType: NativeType{
@@ -1318,7 +1330,7 @@ func (class *typeParserClassNode) asTypeInfo() TypeInfo {
 			Elem: elem,
 		}
 	}
-	if strings.HasPrefix(class.name, SET_TYPE) {
+	if strings.HasPrefix(class.name, SET_TYPE) && len(class.params) >= 1 {
 		elem := class.params[0].class.asTypeInfo()
 		return CollectionType{
 			NativeType: NativeType{
@@ -1327,7 +1339,7 @@ func (class *typeParserClassNode) asTypeInfo() TypeInfo {
 			Elem: elem,
 		}
 	}
-	if strings.HasPrefix(class.name, MAP_TYPE) {
+	if strings.HasPrefix(class.name, MAP_TYPE) && len(class.params) >= 2 {
 		key := class.params[0].class.asTypeInfo()
 		elem := class.params[1].class.asTypeInfo()
 		return CollectionType{
@@ -1341,6 +1353,10 @@ func (class *typeParserClassNode) asTypeInfo() TypeInfo {
 
 	// must be a simple type or custom type
 	info := NativeType{typ: getApacheCassandraType(class.name)}
+	if info.typ == TypeList || info.typ == TypeSet || info.typ == TypeMap {
+		// a collection class without (enough) parameters: keep it as a custom type
+		info.typ = TypeCustom
+	}
 	if info.typ == TypeCustom {
 		// add the entire class definition
 		info.custom = class.input
@@ -1392,7 +1408,14 @@ func (t *typeParser) parseParamNodes() (params []typeParserParamNode, ok bool) {
 
 	t.skipWhitespace()
 
-	for t.input[t.index] != ')' {
+	for {
+		if t.index == len(t.input) {
+			// unterminated parameter list
+			return nil, false
+		}
+		if t.input[t.index] == ')' {
+			break
+		}
 		// look for a named param, but if no colon, then we want to backup
 		backupIndex := t.index
 
@@ -1407,6 +1430,9 @@ func (t *typeParser) parseParamNodes() (params []typeParserParamNode, ok bool) {
 
 		t.skipWhitespace()
 
+		if t.index == len(t.input) {
+			return nil, false
+		}
 		if t.input[t.index] == ':' {
 			// there is a name for this parameter
 
@@ -1440,6 +1466,9 @@ func (t *typeParser) parseParamNodes() (params []typeParserParamNode, ok bool) {
 
 		t.skipWhitespace()
 
+		if t.index == len(t.input) {
+			return nil, false
+		}
 		if t.input[t.index] == ',' {
 			// consume the comma
 			t.index++
